@@ -57,9 +57,10 @@ CLAIMED = {
               "resource and inside %include fragments at any depth.",
               _CFG_NOTE, "Lean 4 proof (culprit position, unbounded) + fault injection with known culprit", "§0.2, §7 C08"),
     "C09": _c("PROVED for all strings, per datatype: model (through generated patterns, word tuples, bounds, suffix tables) = documented contract "
-              "(basic-key, identifier, dotted-name, dotted-suffix, boolean, port-number, byte-size, time-interval, inet-address, socket-address; "
-              "key types idempotent). Exhaustive/probe correspondence for all stock datatypes incl. ipaddr-or-hostname, integer, float, "
-              "string-list, timedelta.",
+              "(56 theorems: basic-key, identifier, dotted-name, dotted-suffix, boolean, port-number, byte-size, time-interval, inet-address, "
+              "socket-address, ipaddr-or-hostname exact with a declarative IPv6 text grammar proved equal to the inet_pton re-implementation, "
+              "integer and float literal grammars, string-list, timedelta incl. the TypeError carve-out; totality of the stock table; key types "
+              "idempotent). Exhaustive/probe correspondence for every modelled stock datatype; locale and existing-* depend on the host and are explored only.",
               "trusted: Lean kernel; extract.py; regex semantics; pyInt/lower/strip models; glibc inet_pton6 re-implementation (compared with socket.inet_pton on every probe).",
               "Lean 4 proof (model = contract per datatype) + regenerated patterns/tables + exhaustive correspondence", "§0.2, §7 C09"),
     "C10": _c("Model ZCV/Model/Elab.lean of schema.py + info.py (schema loading from the XML element tree, components, base schemas). PROVED: "
@@ -70,7 +71,9 @@ CLAIMED = {
               "every rule-violating edit (~3 000 per quick run): real loadSchemaFile vs the model (accept/reject, exception class, equal schema object).",
               "trusted: Lean kernel; extract.py (nesting table, tag tuples); XML text -> element tree is expat's job (not modelled); the datatype registry's view of dotted names and package importability are probed on the interpreter and given to the model as tables.",
               "Lean 4 proof (per-rule theorems + schema invariant on the schema-loader model) + differential correspondence", "§0.2, §7 C10"),
-    "C11": _c("PROVED on the schema-loader model (20 theorems): what `extends` inherits (keys, sections, key type / datatype unless overridden, "
+    "C11": _c("PROVED on the schema-loader model (21 theorems): C11_extends_partial (a document using extends and its written-out expansion give the "
+              "same schema or the same error, chains of any length, for documents without imports/prefixes/key-type overrides; closed counterexample for "
+              "the key-type override = known finding), what `extends` inherits (keys, sections, key type / datatype unless overridden, "
               "wildcard defaults re-normalised from the raw keys, implements not inherited), prefix composition, import-once incl. cycles. "
               "The whole-document equation composed = expanded is decided by running both through the real loader (and both through the model): "
               "extends chains, prefixes 3 deep, 1..3 base schemas incl. a chain of three, components once / repeated / diamond / mutually importing / self-importing.",
@@ -104,8 +107,10 @@ CLAIMED = {
               "values obtained from environment variables (known finding). load/str/reload/str on the real code and the model.",
               "trusted: Lean kernel; model ZCV/Model/Schemaless.lean tied by correspondence (tree and str() output compared exactly).",
               "Lean 4 proof (round trip, unbounded) + round-trip exploration with model correspondence", "§0.2, §7 C17"),
-    "C18": _c("PROVED: C18_isPath_spec (generated _pathsep_rx as isPath uses it, all strings), urlnormalize normal form / idempotence. The "
-              "operating-system part is explored: exhaustive strings through isPath/urlnormalize/urljoin/urldefrag; scratch trees with decoys, four "
+    "C18": _c("PROVED (22 theorems): C18_isPath_spec (generated _pathsep_rx as isPath uses it, all strings), urlnormalize normal form / idempotence; on a "
+              "general model of urllib's urlsplit/urljoin/urldefrag/quote/unquote and the ZConfig.url wrappers (compared with the real library on ~27 000 "
+              "strings x 10 functions per run): quoting round trip for every path, the entry points yield the same URL, joining = lexical resolution against "
+              "the containing directory, nested joins compose. The operating-system part is explored: exhaustive strings through isPath/urlnormalize/urljoin/urldefrag; scratch trees with decoys, four "
               "entry points x every cwd, reused loaders, fragment-carrying references rejected in every position.",
               "trusted: Lean kernel; extract.py; regex semantics; urllib.parse/pathname2url and the OS (explored, not proved).",
               "Lean 4 proof (URL algebra) + exhaustive correspondence + scratch-tree exploration", "§0.2, §7 C18"),
@@ -114,8 +119,10 @@ CLAIMED = {
               "loader object reused and the corrected files re-loaded after each failure; schema graphs and %import by direct oracle.",
               "trusted: Lean kernel; the hand-written model ZCV/Model/Resources.lean tied by trace correspondence; in-process instrumentation of urlopen/Resource.",
               "Lean 4 proof (well-bracketed traces for all graphs/faults) + fault enumeration with trace correspondence", "§0.2, §7 C19"),
-    "C20": _c("PROVED: C20_level_spec (generated table + bounds = documented function, all strings), C20_level_range, std-stream options refused, "
-              "rotation requires old-files, closeFiles closes all registered. Exploration of the real component: level spellings, logfile option "
+    "C20": _c("PROVED (30 theorems): level table/range/case-insensitivity, the registry invariants for ALL operation sequences (reopen/close act on exactly the "
+              "live handlers), the complete handler decision table, factory idempotence and logger set-up on a model of factory.py/logger.py, and for the "
+              "classic style: accepted iff every item is a known field with a conversion valid for its type, accepted => the formatter builds and an ordinary "
+              "record formats without raising (model of CPython's str % mapping; compared with the real loader incl. exception class). Exploration of the real component: level spellings, logfile option "
               "matrix vs model, produced loggers, factory idempotence, format strings of four styles, registry operation sequences vs model.",
               "trusted: Lean kernel; extract.py; models ZCV/Model/Logger.lean tied by correspondence; rendering by logging/str.format/string.Template, streams, files, weakref timing are outside the model.",
               "Lean 4 proof (decision logic) + exploration of the real component with model correspondence", "§0.2, §7 C20"),
